@@ -39,8 +39,8 @@ TRUSTED = [
     "C04 two threads (harness/props/c04_preempt.py): sys.settrace baton scheduler; scheduling points = every line of process_iter (+ inner add/remove), of the cache_clear lambda and of Process.is_running, every bytecode of those that loads/stores _pmap or _pids_reused and the bytecode after it, entry and _get_ident line of Process._init, item boundaries of the consumer loop; all schedules with <= 2 pre-emptions (thorough; with kernel events on a 1/6 sub-lattice) and item-boundary schedules with 3 pre-emptions; every-bytecode granularity is sampled only; more than two pre-emptions / more than two threads are not explored (the statement-granularity theorems C04_fine_* cover them thread-locally); the values a real generator frame reads (its locals pmap / a / pid / ls at line events, NoSuchProcess exception events, yields at return events, pmap at the `_pmap = pmap` line) are read off the frame by the tracer and fed to the Lean thread model",
 ]
 MANIFEST = {
-    "level_text": "Machine-checked Lean 4 proofs over a model of pids()/pid_exists()/process_iter()/cache_clear()/is_running()'s cache side effect. For every table: pids() is the strictly ascending list of exactly the listed PIDs (C04_pids_sorted_exact, C04_pids_unique; byte level: C04_listing_exact); pid_exists(n) is a bool, True exactly for listed PIDs, for every int n and every well-formed table with threads, foreign processes and broken status files (C04_pidExists_iff). For EVERY history, overlapping generators and both prologue orders included: each generator yields strictly ascending PIDs without duplicates, all from the listing it took, and next() can only yield/stop/raise ValueError (invalid attrs)/IndexError (empty table) (C04_iter_ascending, C04_overlap_safety, C04_yield_was_listed); each next() visits the remaining listed PIDs in order and skips a PID only if it vanished (C04_iter_each_listed_once at full strength for the repaired prologue order, C04_iter_each_listed_once_partial for the current code when no PID is flagged at the start of the iteration); info keys are exactly the requested names (C04_info_keys). One WHOLE iteration as one sentence, for any continuation of the history (other generators advancing, table changes inside and between calls, cache_clear, is_running): the PIDs a generator yields are a subsequence of the ascending listing it took and every PID of that listing is yielded, or was absent from the table at one of its next() calls, or is still to be visited; once the generator is exhausted, yielded or vanished (C04_iteration_complete at full strength for the repaired prologue order, C04_iteration_complete_partial for the code as it is when no PID is flagged at the start, C04_iteration_drained). For every SEQUENTIAL history the whole output trace of the model — PIDs, object identities, info keys — equals that of a shared-cache specification machine (C04_refines_sequential, by an abstraction function), whose cache keeps an entry iff its PID is still listed and not flagged, yields the cached object else a fresh one, and is emptied by cache_clear (C04_start_cache, C04_spec_visit, C04_isRunning_flags, C04_cache_clear). The platform functions are covered branch by branch: _psposix.pid_exists (PID 0, ESRCH, EPERM, ok, OverflowError: C04_posix_pidExists_branches), _pslinux.pid_exists called on its own with ANY table changes between the kill probe and the status read (C04_linux_pidExists_linearizable: the answer is right for the table at the probe or at the read; C04_linux_pidExists_iff without changes; C04_platform_eq ties them to the front-end model); bool arguments are ints (C04_pidExists_bool), floats are pinned as outside the statement (C04_pidExists_float: TypeError for positive floats). as_dict's ad_value substitution: keys exactly the requested names, ad_value exactly where the getter raises AccessDenied/ZombieProcess (C04_asdict_ad_value). Two threads in the prologue's drain loop: C04_drain_race_counterexample (KeyError with the unguarded pop of the code as found) and C04_drain_guarded_safe (no KeyError, no flag lost, every schedule, for the guarded pop); the code now has the guarded pop (fix 4d302c5), pinned by the obligation cfg_pop_guarded. One thread at STATEMENT granularity against an arbitrary environment (Model/C04Fine.lean: the thread as a function of what it reads — _pmap at the copy, the table at the listing, the PIDs _pids_reused.pop() hands it, the answer at each Process(pid) / as_dict — so for every schedule of any number of threads and table changes at any point, also between add(pid) and as_dict): its prologue computes what the atomic prologue computes on the hybrid snapshot (C04_fine_prologue_atomic); yielded PIDs strictly ascending and from its listing, each yielded object is the one _pmap held for that PID at the copy (and not handed to it as recycled) or its own new one, only IndexError/KeyError(unguarded pop)/ValueError can escape (C04_fine_safety, C04_fine_no_keyerror for the code as it is); what it stores into _pmap maps PIDs of its listing to the copied or its own object for that very PID (C04_fine_publish: the guarantee every reader relies on); run to the end it yields every listed PID unless the world answered NoSuchProcess there (C04_fine_complete, for the repaired order or when it was handed no flagged PID). Proved counterexamples (replayed on the real code): L4 OverflowError for the pre-fix pid_exists, L19 flagged PID skipped, overlapping generators, cache_clear while suspended, ppid reuse check (these last four are the known findings C04-flagged-pid-skipped, C04-overlap-identity, C04-clear-while-suspended, C04-reuse-check-skips-pid), and the _pids_reused.pop() race of two threads for the unguarded pop (fixed in /repo by 4d302c5). Tied to the code by translator facts (range guard, prologue order, valid/access-free/reuse-checking attr names) feeding cfg_good and the model the driver runs, and by a differential run of the real functions over a fake procfs incl. exhaustive short histories, the complete pid_exists table (front-end, both platform functions, windows between probe and read, bool/float arguments), attrs=[] (all names) on a complete fake /proc/<pid> with EACCES injection, and a deterministic bounded-pre-emption exploration of two threads using process_iter()/cache_clear()/is_running() at once (oracle from the statement; item-boundary schedules are also run through the Lean model, drain-loop steps through the Lean drain model, and EVERY generator run of every explored schedule — line, shared-bytecode and every-bytecode granularity — through the statement-granularity thread model fed with the values the real thread read: to-do list, yields and the published map must be equal); the whole-iteration sentence is also judged on the implementation's own outputs of every history; process_iter is called in every spelling of its signature (no argument, attrs / ad_value positional, by keyword, defaults).",
-    "level_note": "Partial: two threads: theorems cover the generator-level interleavings (Op.next of several generators), the drain loop, and — thread-locally, for every schedule — one thread at statement granularity against an arbitrary environment (safety, identity of the yielded objects w.r.t. the copy, the published map, completeness); the GLOBAL identity statement under two threads is not proved (it is false: known finding C04-overlap-identity) and the composition of several fine-grained threads into one trace is explored (<= 2 pre-emptions at line/shared-bytecode granularity), not proved. Identity is proved for sequential histories only (overlaps, cache_clear while suspended, ppid+recycled PID, flagged PID at iteration start are the four known findings, with proved counterexamples; the _pids_reused.pop() race found in the same round is fixed by 4d302c5); completeness is stated per next(). Trusted: Lean kernel + {propext, Classical.choice, Quot.sound}; the translator; the correspondence harness; atomicity (table changes between psutil's OS accesses and right after the listing); CPython generator finalisation and set iteration order; as_dict modelled by attribute kind.",
+    "level_text": "Machine-checked Lean 4 proofs over a model of pids()/pid_exists()/process_iter()/cache_clear()/is_running()'s cache side effect. For every table: pids() is the strictly ascending list of exactly the listed PIDs (C04_pids_sorted_exact, C04_pids_unique; byte level: C04_listing_exact); pid_exists(n) is a bool, True exactly for listed PIDs, for every int n and every well-formed table with threads, foreign processes and broken status files (C04_pidExists_iff). For EVERY history, overlapping generators and both prologue orders included: each generator yields strictly ascending PIDs without duplicates, all from the listing it took, and next() can only yield/stop/raise ValueError (invalid attrs)/IndexError (empty table) (C04_iter_ascending, C04_overlap_safety, C04_yield_was_listed); each next() visits the remaining listed PIDs in order and skips a PID only if it vanished (C04_iter_each_listed_once_repaired: full strength only for a configuration with the REPAIRED prologue order — not the shipped code; C04_iter_each_listed_once_partial for the code as it is when no PID is flagged at the start of the iteration; C04_iter_each_listed_Full_fails_shipped / C04_iteration_complete_Full_fails_shipped: the full clause is REFUTED for the shipped order on the L19 state); info keys are exactly the requested names (C04_info_keys). One WHOLE iteration as one sentence, for any continuation of the history (other generators advancing, table changes inside and between calls, cache_clear, is_running): the PIDs a generator yields are a subsequence of the ascending listing it took and every PID of that listing is yielded, or was absent from the table at one of its next() calls, or is still to be visited; once the generator is exhausted, yielded or vanished (C04_iteration_complete_repaired for the repaired prologue order only, C04_iteration_complete_partial for the code as it is when no PID is flagged at the start, C04_iteration_drained). 'Recycled -> replaced by a fresh object' for the SHIPPED order in its two-iteration form, from any reachable state, kernel events anywhere, any attrs (C04_flagged_iteration_skips: the iteration that starts while a cached PID is flagged never yields it and publishes a _pmap without it — the known finding C04-flagged-pid-skipped characterised in general; C04_uncached_iteration_fresh: an iteration that finds a listed PID uncached yields for it only a reference no object had before, an object of that PID; C04_recycled_replaced_two_iterations: both composed; C04_refines_sequential_from: from any idle reachable state — e.g. the one after the dropping iteration — the code equals the specification machine, so the fresh object is kept). Object <-> PID: in every reachable state, any configuration, the yielded reference is a live object whose pid is the yielded PID and no reference in _pmap / a suspended generator's map / to-do list dangles or is filed under another PID (C04_yield_object_pid, C04_object_pid_stable; invariant ObjInv). For every SEQUENTIAL history the whole output trace of the model — PIDs, object identities, info keys — equals that of a shared-cache specification machine (C04_refines_sequential, by an abstraction function), whose cache keeps an entry iff its PID is still listed and not flagged, yields the cached object else a fresh one, and is emptied by cache_clear (C04_start_cache, C04_spec_visit, C04_isRunning_flags, C04_cache_clear). The platform functions are covered branch by branch: _psposix.pid_exists (PID 0, ESRCH, EPERM, ok, OverflowError: C04_posix_pidExists_branches), _pslinux.pid_exists called on its own with ANY table changes between the kill probe and the status read (C04_linux_pidExists_two_instants: the answer is right for the table at the probe or at the read; C04_linux_pidExists_iff without changes; C04_platform_eq ties them to the front-end model); bool arguments are ints (C04_pidExists_bool), floats are pinned as outside the statement (C04_pidExists_float: TypeError for positive floats). as_dict's ad_value substitution: keys exactly the requested names, ad_value exactly where the getter raises AccessDenied/ZombieProcess (C04_asdict_ad_value). Two threads in the prologue's drain loop: C04_drain_race_counterexample (KeyError with the unguarded pop of the code as found) and C04_drain_guarded_safe (no KeyError, no flag lost, every schedule, for the guarded pop); the code now has the guarded pop (fix 4d302c5), pinned by the obligation cfg_pop_guarded. One thread at STATEMENT granularity against an arbitrary environment (Model/C04Fine.lean: the thread as a function of what it reads — _pmap at the copy, the table at the listing, the PIDs _pids_reused.pop() hands it, the answer at each Process(pid) / as_dict — so for every schedule of any number of threads and table changes at any point, also between add(pid) and as_dict): its prologue computes what the atomic prologue computes on the hybrid snapshot (C04_fine_prologue_atomic); yielded PIDs strictly ascending and from its listing, each yielded object is the one _pmap held for that PID at the copy (and not handed to it as recycled) or its own new one, only IndexError/KeyError(unguarded pop)/ValueError can escape (C04_fine_safety, C04_fine_no_keyerror for the code as it is); what it stores into _pmap maps PIDs of its listing to the copied or its own object for that very PID (C04_fine_publish: the guarantee every reader relies on); run to the end it yields every listed PID unless the world answered NoSuchProcess there (C04_fine_complete, for the repaired order or when it was handed no flagged PID). Proved counterexamples (replayed on the real code): L4 OverflowError for the pre-fix pid_exists, L19 flagged PID skipped, overlapping generators, cache_clear while suspended, ppid reuse check (these last four are the known findings C04-flagged-pid-skipped, C04-overlap-identity, C04-clear-while-suspended, C04-reuse-check-skips-pid), and the _pids_reused.pop() race of two threads for the unguarded pop (fixed in /repo by 4d302c5). Tied to the code by translator facts feeding proof obligations — cfg_good (range guard), cfg_reuse_attrs (the only as_dict name whose getter reaches _raise_if_pid_reused() is ppid: a getter gaining the call breaks the build, and the harness keeps the region of known finding C04-reuse-check-skips-pid pinned to ppid so the new behaviour is a failing input), cfg_no_access_attrs (exactly pid and create_time are answered from the object; C04_refines_sequential_literal states the refinement against the literal list), cfg_names_valid, cfg_pop_guarded; C04_noReuse_iff spells out the NoReuse hypothesis for the code as it is (attrs=None or a non-empty list without ppid) — and the prologue order, which selects the model the driver runs, and by a differential run of the real functions over a fake procfs incl. exhaustive short histories, the complete pid_exists table (front-end, both platform functions, windows between probe and read, bool/float arguments), attrs=[] (all names) on a complete fake /proc/<pid> with EACCES injection, and a deterministic bounded-pre-emption exploration of two threads using process_iter()/cache_clear()/is_running() at once (oracle from the statement; item-boundary schedules are also run through the Lean model, drain-loop steps through the Lean drain model, and EVERY generator run of every explored schedule — line, shared-bytecode and every-bytecode granularity — through the statement-granularity thread model fed with the values the real thread read: to-do list, yields and the published map must be equal); the whole-iteration sentence is also judged on the implementation's own outputs of every history; process_iter is called in every spelling of its signature (no argument, attrs / ad_value positional, by keyword, defaults).",
+    "level_note": "Partial: two threads: theorems cover the generator-level interleavings (Op.next of several generators), the drain loop, and — thread-locally, for every schedule — one thread at statement granularity against an arbitrary environment (safety, identity of the yielded objects w.r.t. the copy, the published map, completeness); the GLOBAL identity statement under two threads is not proved (it is false: known finding C04-overlap-identity) and the composition of several fine-grained threads into one trace is explored (<= 2 pre-emptions at line/shared-bytecode granularity), not proved. Identity is proved for sequential histories only (overlaps, cache_clear while suspended, ppid+recycled PID, flagged PID at iteration start are the four known findings, with proved counterexamples; the _pids_reused.pop() race found in the same round is fixed by 4d302c5); completeness at full strength is proved for the repaired prologue order only and refuted for the shipped one, for which the partial theorems (nothing flagged at the start) and the two-iteration theorem hold; `zombie` is carried by the kernel model but read only by asDictVals (per-getter outcomes fed by the harness), not by the history machine; every OSError of the status read is one outcome of the model (the harness injects ENOENT, EACCES and ESRCH). Trusted: Lean kernel + {propext, Classical.choice, Quot.sound}; the translator; the correspondence harness; atomicity (table changes between psutil's OS accesses and right after the listing); CPython generator finalisation and set iteration order; as_dict modelled by attribute kind.",
     "technique": "Lean 4 generator state machine + refinement to a shared-cache specification by an abstraction function, invariants by induction over histories, a statement-granularity thread model quantified over everything the thread reads (rely/guarantee), translator-fed proof obligation, differential correspondence over a fake procfs with exhaustive short histories, bounded-pre-emption schedule exploration of real threads (sys.settrace baton scheduler) tied to the Lean model at item granularity",
     "design_ref": "DESIGN.md §5 C04",
 }
@@ -545,11 +545,13 @@ class Impl:
                 if self.patches is None:
                     self.patches = c04_fullproc.OsPatches(self)
                 self.patches.deny = {(op["n"], "status")}
+                self.patches.errno = op.get("errno")        # ESRCH (task died under the reader), EIO…: same road
             try:
                 r = self.linux.pid_exists(op["n"])
             finally:
                 if op.get("deny"):
                     self.patches.deny = set()
+                    self.patches.errno = None
                 if self.pending_kill_mid is not None:      # the probe raised before deciding (OverflowError)
                     mid, self.pending_kill_mid = self.pending_kill_mid, None
                     for ev in mid:
@@ -817,7 +819,7 @@ def judge(rows, reuse_attrs, known_ids):
 
 
 def whole_iteration_oracle(rows, reuse_attrs, valid):
-    """The trace-level sentence of the statement (Lean: C04_iteration_complete / C04_iteration_drained), judged on the
+    """The trace-level sentence of the statement (Lean: C04_iteration_complete_partial / C04_iteration_drained), judged on the
     implementation's own outputs and a shadow process table — no model involved: the PIDs one generator yields are a
     subsequence of the ascending listing of the table at its first next(), and once it has stopped every PID of that
     listing was either yielded or absent from the table at one of its next() calls. Applies to ANY history (overlapping
@@ -1216,6 +1218,9 @@ def gen_history(rng, family):
                 op = {"op": "linux_pid_exists", "n": n, "mid": mid}
                 if rng.random() < 0.3:
                     op["deny"] = True
+                    e = rng.choice([None, None, 3, 5, 2])
+                    if e is not None:
+                        op["errno"] = e
                 b.h.append(op)
             elif r < 0.85:
                 b.h.append({"op": "pid_exists_arg", "t": "bool", "v": rng.random() < 0.5})
@@ -1386,6 +1391,9 @@ def pid_exists_table():
         [{"op": "linux_pid_exists", "n": 0, "mid": [{"k": "exit", "pid": 0}]}],
         # the status file cannot be opened (EACCES): thread ids (own / foreign process), PIDs, an absent id, with a window
         [{"op": "linux_pid_exists", "n": n, "mid": [], "deny": True} for n in (8, 9, 1, 2, 3, 6, 7, 0, PID_T_MAX)],
+        # the status file of a task that dies under the reader answers ESRCH (ProcessLookupError); EIO: a plain OSError
+        [{"op": "linux_pid_exists", "n": n, "mid": [], "deny": True, "errno": e} for n in (1, 2, 8, 9, 6) for e in (3, 5)],
+        [{"op": "linux_pid_exists", "n": 1, "mid": [{"k": "exit", "pid": 1}], "deny": True, "errno": 3}],
         [{"op": "linux_pid_exists", "n": 8, "mid": [{"k": "exit", "pid": 1}, {"k": "spawn", "p": mk_proc(8, 93)}], "deny": True}],
         [{"op": "linux_pid_exists", "n": 1, "mid": [{"k": "exit", "pid": 1}, thr(1, 6)], "deny": True}],
     ]
@@ -1435,6 +1443,8 @@ def features(h, rows):
         elif k == "posix_pid_exists":
             f.add("posix_pid_exists:%s" % (io.get("v") if io.get("kind") == "bool" else io.get("exc")))
         elif k == "linux_pid_exists":
+            if o.get("deny") and o.get("errno"):
+                f.add("linux_pid_exists_errno:%d" % o["errno"])
             f.add("linux_pid_exists%s%s:%s" % ("_denied" if o.get("deny") else "", "_window" if o["mid"] else "",
                                               io.get("v") if io.get("kind") == "bool" else io.get("exc")))
         elif k == "pid_exists_arg":
